@@ -284,6 +284,52 @@ def judge_cf(c, tags, o):
     return bad
 
 
+def raster_tag_class(c):
+    t = (c.get("tags") or {})
+    if "AREA_OR_POINT" in t:
+        return ".tag_" + t["AREA_OR_POINT"].lower()
+    return ".tag_other" if t else ""
+
+
+RASTER_TAGS = [None, None, {"AREA_OR_POINT": "Area"}, {"AREA_OR_POINT": "Point"}, {"AREA_OR_POINT": "Point"}, {"AREA_OR_POINT": "point"},
+               {"TIFFTAG_SOFTWARE": "verif", "units": "K"}, {"AREA_OR_POINT": "Point", "scale_factor": "0.5"}]
+
+
+def gen_geo_beyond(r):
+    """Geographic areas whose extent reaches beyond +-90 / +-180 degrees (node-registered global grids with pixel centres on the
+    poles and on the antimeridian, polar caps ending half a pixel past the pole, 0..360 longitudes), regular and flipped."""
+    fam = r.choice([f for f in POOL if f["kind"] == "deg"])
+    ps = r.choice([10.0, 5.0, 2.5, 2.0, 1.0, 0.5, 0.25])
+    kind = r.choice(["global_node", "arctic", "antarctic", "lon_0_360", "lon_past_180", "both"])
+    if kind == "global_node":
+        ext, w, h = [-180 - ps / 2, -90 - ps / 2, 180 + ps / 2, 90 + ps / 2], int(360 / ps) + 1, int(180 / ps) + 1
+    elif kind == "arctic":
+        h, w = r.randint(1, 12), r.randint(1, 12)
+        ext = [r.randint(-17, 10) * 10.0, 90 + ps / 2 - h * ps, 0, 90 + ps / 2]
+        ext[2] = ext[0] + w * ps
+    elif kind == "antarctic":
+        h, w = r.randint(1, 12), r.randint(1, 12)
+        ext = [r.randint(-17, 10) * 10.0, -90 - ps / 2, 0, -90 - ps / 2 + h * ps]
+        ext[2] = ext[0] + w * ps
+    elif kind == "lon_0_360":
+        h, w = r.randint(1, 12), int(360 / ps)
+        ext = [0.0, 10.0, 360.0, 10.0 + h * ps]
+    elif kind == "lon_past_180":
+        h, w = r.randint(1, 12), r.randint(2, 12)
+        ext = [180 + ps / 2 - (w - 1) * ps, -20.0, 180 + ps / 2 + ps, -20.0 + h * ps]
+    else:
+        w, h = r.randint(1, 8), r.randint(1, 8)
+        ext = [-200.0, -100.0, 200.0, 100.0]
+    flip = r.choice(["no", "no", "y", "x", "xy"])
+    x0, y0, x1, y1 = ext
+    if "y" in flip:
+        y0, y1 = y1, y0
+    if "x" in flip:
+        x0, x1 = x1, x0
+    spec = {"crs": fam["crs"], "extent": [x0, y0, x1, y1], "w": w, "h": h}
+    return {"area": spec}, {"fam": fam["name"], "kind": "deg", "dyadic": True, "upside_down": "y" in flip, "beyond": True, "beyond_kind": kind}
+
+
 def judge_raster(c, tags, o):
     bad = []
     spec = c["area"]
@@ -297,7 +343,7 @@ def judge_raster(c, tags, o):
         ys = ys[::-1]
     for path in ("rio", "gdal"):
         p = o[path]
-        cls = path + (".sn" if c["sn"] else ".ns")
+        cls = path + (".sn" if c["sn"] else ".ns") + raster_tag_class(c)
         if p["shape"] != [spec["h"], spec["w"]]:
             bad.append(("C20.raster.shape." + cls, "shape %s, raster is %s" % (p["shape"], [spec["h"], spec["w"]])))
         if (tags["dyadic"] and p["extent"] != want) or not close4(p["extent"], want, tx, ty):
@@ -336,12 +382,17 @@ def judge_geobox(c, tags, o):
 
 
 def judge_cartopy(c, tags, o):
+    cls = ".geographic_beyond_domain" if tags.get("beyond") else ""
     if "error" in o:
+        if tags.get("beyond"):
+            return []          # an extent outside +-90 / +-180 may be refused loudly; it must not be altered silently
         return [("C20.cartopy.error", "to_cartopy_crs failed: " + o["error"])]
     x0, y0, x1, y1 = c["area"]["extent"]
     bad = []
     if o["bounds"] != [x0, x1, y0, y1]:
-        bad.append(("C20.cartopy.bounds", "bounds %s, required the extent reordered %s" % (o["bounds"], [x0, x1, y0, y1])))
+        bad.append(("C20.cartopy.bounds" + cls, "bounds %s, required the extent reordered %s" % (o["bounds"], [x0, x1, y0, y1])))
+    elif o.get("x_limits") != [x0, x1] or o.get("y_limits") != [y0, y1]:
+        bad.append(("C20.cartopy.limits" + cls, "x_limits %s / y_limits %s do not carry the extent %s" % (o.get("x_limits"), o.get("y_limits"), [x0, y0, x1, y1])))
     if not (o["crs_eq"] or o["crs_op"]):
         bad.append(("C20.cartopy.crs", "cartopy CRS differs from the area's"))
     if o.get("repeat_same") is False:
@@ -385,8 +436,8 @@ def coq_cf(c, o):
 
 def coq_raster(c, o):
     spec = c["area"]
-    return "mk_raster_case %s %d %d %s %s %s %s %s %d %d %s %s" % (
-        f4(spec["extent"]), spec["w"], spec["h"], bl(c["sn"]), f6(o["transform"]), f4(o["bounds"]), f4(o["rio"]["extent"]), f4(o["gdal"]["extent"]),
+    return "mk_raster_case %s %d %d %s %s %s %s %s %s %d %d %s %s" % (
+        f4(spec["extent"]), spec["w"], spec["h"], bl(c["sn"]), f6(o["written_transform"]), f6(o["transform"]), f4(o["bounds"]), f4(o["rio"]["extent"]), f4(o["gdal"]["extent"]),
         o["rio"]["shape"][1], o["rio"]["shape"][0], flist(o["rio"]["xvec"]), flist(o["rio"]["yvec"]))
 
 
@@ -440,10 +491,13 @@ def build_payload(ctx):
         for h in range(1, top + 1):
             for sn in (False, True):
                 spec = {"crs": POOL[0]["crs"], "extent": [-8192.0, 4096.0, -8192.0 + 1024.0 * w, 4096.0 + 512.0 * h], "w": w, "h": h}
-                raster.append(({"area": spec, "sn": sn, "by_name": False}, {"fam": "laea", "kind": "m", "dyadic": True, "upside_down": False, "small_scope": True}))
+                for rtags in (None, {"AREA_OR_POINT": "Point"}):
+                    raster.append(({"area": spec, "sn": sn, "by_name": False, "tags": rtags},
+                                   {"fam": "laea", "kind": "m", "dyadic": True, "upside_down": False, "small_scope": True}))
     for _ in range(ctx.n(160, 1600)):
         spec, tags = gen_area(r, 1, 20)
-        raster.append(({"area": spec, "sn": r.random() < 0.35, "by_name": r.random() < 0.25, "future": r.random() < 0.15}, tags))
+        raster.append(({"area": spec, "sn": r.random() < 0.35, "by_name": r.random() < 0.25, "future": r.random() < 0.15,
+                        "tags": r.choice(RASTER_TAGS)}, tags))
     geobox = []
     for _ in range(ctx.n(260, 3000)):
         spec, tags = gen_area(r, 1)
@@ -451,10 +505,12 @@ def build_payload(ctx):
             x0, y0, x1, y1 = spec["extent"]
             spec["extent"] = r.choice([[x0, y1, x1, y0], [x1, y0, x0, y1], [x1, y1, x0, y0]])
         geobox.append(({"area": spec}, tags))
+    geobox += [gen_geo_beyond(r) for _ in range(ctx.n(20, 200))]
     cartopy = []
     for _ in range(ctx.n(100, 800)):
         spec, tags = gen_area(r, 1)
         cartopy.append(({"area": spec}, tags))
+    cartopy += [gen_geo_beyond(r) for _ in range(ctx.n(30, 300))]
     rotated = []
     for _ in range(ctx.n(16, 100)):
         b = r.choice([0.0, 0.0, 0.5, -2.0, 1e-9])
@@ -471,8 +527,10 @@ def run(ctx):
                 "m/meters/metres/km/degrees*/radians, coordinate vectors stored as float32 / int32 / int16 (integer centres the dtype holds exactly, "
                 "odd pixel sizes so the half-integer corners are not storable; float32 above 2^23, int16 also with spans beyond the dtype's range), variable-, search-, grid-mapping- and from_cf-based lookup, extra time dimension, "
                 "grid mapping with or without crs_wkt; plus every shape 2..4 (quick) / 2..7 (thorough) squared x 4 orientations x m/km on one dyadic "
-                "laea grid and every raster shape from 1x1; rasters north-up and south-up through rasterio MemoryFile GeoTIFFs and a duck-typed gdal "
-                "dataset; rotated transforms; ~15% of CF/raster cases with features.future_geometries on; every CF load, "
+                "laea grid and every raster shape from 1x1; rasters north-up and south-up, with no tags / AREA_OR_POINT=Area / =Point / unrelated tags, through rasterio MemoryFile GeoTIFFs and a duck-typed gdal "
+                "dataset; rotated transforms; GeoBox and cartopy additionally on geographic areas reaching beyond +-90 / +-180 degrees (node-registered "
+                "global grids, polar caps half a pixel past the pole, 0..360 and past-180 longitudes; regular and flipped; a loud refusal is "
+                "accepted there, an altered extent is not); ~15% of CF/raster cases with features.future_geometries on; every CF load, "
                 "GeoBox and cartopy conversion is repeated once on the same object (history: same result, inputs untouched). Oracle tolerances: "
                 "1e-9 pixel + the derived binary64 bound of the chain (12 ulp of the largest coordinate for extents, 24 for pixel-centre "
                 "vectors, derivation in harness/c20.tolerances), also where PROJ converts km (checked to be multiplication by 1000 within 2 ulp); "
@@ -531,7 +589,10 @@ def run(ctx):
                     err = max(abs(a - b) for a, b in zip(o["extent"], want)) / ps
                     cls = "PROJ unit conversion" if c["mode"] == 1 else "dyadic, CRS units" if (tags["dyadic"] and c["mode"] == 0) else "other"
                     worst[cls] = max(worst.get(cls, 0.0), err)
+            if tags.get("beyond"):
+                ctx.count("%s.geographic_beyond_domain_%s" % (sect, tags["beyond_kind"]))
             if sect == "raster":
+                ctx.count("raster.file" + (raster_tag_class(c) or ".no_tags"))
                 ctx.count("raster." + ("south_up" if c["sn"] else "north_up"))
                 if "rio" in o:
                     ctx.count("raster.crs_%s" % ("equal" if o["rio"]["crs_eq"] else "same_grid_only" if o["rio"]["crs_op"] else "DIFFERENT"))
